@@ -10,4 +10,10 @@ require (
 	pgregory.net/rapid v1.3.0
 )
 
+require (
+	github.com/x448/float16 v0.8.4 // indirect
+	golang.org/x/sys v0.30.0 // indirect
+	golang.org/x/term v0.29.0 // indirect
+)
+
 replace go.flow.arcalot.io/pluginsdk => /repo
